@@ -287,7 +287,12 @@ def _j(x):
     return [_j(i) for i in x]
 
 
+_worker_failed = {}
+
+
 def _get_worker(mode='fb'):
+    if mode in _worker_failed:
+        raise RuntimeError(_worker_failed[mode])     # do not start it again for every case
     if mode not in _workers:
         p = subprocess.Popen([sys.executable, '-c', WORKER_SRC, os.environ.get('NETADDR_REPO', ''), mode],
                              stdin=subprocess.PIPE, stdout=subprocess.PIPE, stderr=subprocess.PIPE,
@@ -295,7 +300,8 @@ def _get_worker(mode='fb'):
         first = p.stdout.readline()
         if not first.startswith('ready'):
             err = p.stderr.read()
-            raise RuntimeError('fallback back-end worker (%s) failed to start: %s' % (mode, err[-400:]))
+            _worker_failed[mode] = 'fallback back-end worker (%s) failed to start: %s' % (mode, err[-400:])
+            raise RuntimeError(_worker_failed[mode])
         if not _workers:
             atexit.register(_stop_worker)
         _workers[mode] = p
